@@ -216,4 +216,343 @@ def wfResp : RespSt → Prop
   | .sync id => id.length = 16
   | _ => True
 
+/-! ### store protocol (`store/mod.rs`) -/
+
+inductive StoreInit (β : Type)
+  | command (b : β) | initComplete
+  deriving Repr, DecidableEq
+
+def encStoreInit (enc : β → Bytes) : StoreInit β → Bytes
+  | .command b => laneCommand :: enc b
+  | .initComplete => [laneInitDone]
+
+def storeInitBody (p : Parser β) (buf : Bytes) : ReqSt × Bytes × Out (StoreInit β) :=
+  match (p buf).2 with
+  | .item x => (.header, (p buf).1, .item (.command x))
+  | .more => (.body, (p buf).1, .more)
+  | .err => (.header, (p buf).1, .err)
+  | .panic => (.body, (p buf).1, .panic)
+  | .abort => (.body, (p buf).1, .abort)
+
+/-- `StoreInitMessageDecoder<D>::decode`. -/
+def storeInitStep (p : Parser β) : ReqSt → Bytes → ReqSt × Bytes × Out (StoreInit β)
+  | .body, buf => storeInitBody p buf
+  | .header, buf =>
+    if buf.length < tagLen then (.header, buf, .more)
+    else if hd buf = laneCommand then storeInitBody p (buf.drop 1)
+    else if hd buf = laneInitDone then (.header, buf.drop 1, .item .initComplete)
+    else (.header, buf.drop 1, .err)
+
+def storeInit (p : Parser β) : Dec (StoreInit β) where
+  σ := ReqSt
+  init := .header
+  step := storeInitStep p
+  view := fun s => match s with | .header => [] | .body => [laneCommand]
+
+def okStoreInit (ok : β → Prop) : StoreInit β → Prop
+  | .command b => ok b
+  | .initComplete => True
+
+/-- `StoreInitializedCodec` (the tag is consumed before it is compared). -/
+def storeInitialized : Parser Unit := fun buf =>
+  if buf.length < tagLen then (buf, .more)
+  else if hd buf = laneInitialized then (buf.drop 1, .item ())
+  else (buf.drop 1, .err)
+
+def encStoreInitialized (_ : Unit) : Bytes := [laneInitialized]
+
+/-- `StoreResponse { message }`. -/
+def encStoreResp (enc : β → Bytes) (b : β) : Bytes := laneEvent :: enc b
+
+def storeRespBody (p : Parser β) (buf : Bytes) : ReqSt × Bytes × Out β :=
+  match (p buf).2 with
+  | .item x => (.header, (p buf).1, .item x)
+  | .more => (.body, (p buf).1, .more)
+  | .err => (.header, (p buf).1, .err)
+  | .panic => (.body, (p buf).1, .panic)
+  | .abort => (.body, (p buf).1, .abort)
+
+/-- `StoreResponseDecoder<Inner>::decode`; note the header guard `remaining() <= TAG_LEN`. -/
+def storeRespStep (p : Parser β) : ReqSt → Bytes → ReqSt × Bytes × Out β
+  | .body, buf => storeRespBody p buf
+  | .header, buf =>
+    if buf.length ≤ tagLen then (.header, buf, .more)
+    else if hd buf = laneEvent then storeRespBody p (buf.drop 1)
+    else (.header, buf.drop 1, .err)
+
+def storeResponse (p : Parser β) : Dec β where
+  σ := ReqSt
+  init := .header
+  step := storeRespStep p
+  view := fun s => match s with | .header => [] | .body => [laneEvent]
+
+/-! ### `reserve` on a length taken from the wire -/
+
+/-- Size from which the harness' allocator refuses a single allocation (256 MiB; a deterministic stand-in for
+"more than the machine has"): such a reservation cannot be satisfied and the process aborts. -/
+notation "ALLOC_LIMIT" => (268435456 : Nat)
+notation "ISIZE_MAX1" => (9223372036854775808 : Nat)
+
+inductive ReserveOut | ok | panic | abort
+  deriving DecidableEq
+
+/-- `BytesMut::reserve(n)` for an `n` beyond the current capacity: `capacity overflow` panic above
+`isize::MAX`, `handle_alloc_error` (abort) when the allocation cannot be satisfied. -/
+def reserveOut (n : Nat) : ReserveOut :=
+  if ISIZE_MAX1 ≤ n then .panic else if ALLOC_LIMIT ≤ n then .abort else .ok
+
+def afterReserve {α : Type} (n : Nat) (buf : Bytes) : Bytes × Out α :=
+  match reserveOut n with
+  | .ok => (buf, .more)
+  | .panic => (buf, .panic)
+  | .abort => (buf, .abort)
+
+/-! ### `DownlinkOperationDecoder` (`downlink/mod.rs`) -/
+
+def downlinkOp : Parser Bytes := fun buf =>
+  if lenSize ≤ buf.length then
+    (if M64 ≤ rd (buf.take 8) + lenSize then (buf, .panic)                        -- `len + LEN_SIZE` overflows
+     else if rd (buf.take 8) + lenSize ≤ buf.length then
+       ((buf.drop 8).drop (rd (buf.take 8)), .item ((buf.drop 8).take (rd (buf.take 8))))
+     else afterReserve (lenSize + rd (buf.take 8)) buf)                             -- `src.reserve(LEN_SIZE + len)`
+  else (buf, .more)
+
+/-! ### UTF-8 validity (`std::str::from_utf8`) -/
+
+def isCont (b : Nat) : Bool := 128 ≤ b && b ≤ 191
+
+def utf8Valid : List Nat → Bool
+  | [] => true
+  | b0 :: rest =>
+    if b0 < 128 then utf8Valid rest
+    else if 194 ≤ b0 && b0 ≤ 223 then
+      match rest with
+      | b1 :: r => isCont b1 && utf8Valid r
+      | _ => false
+    else if 224 ≤ b0 && b0 ≤ 239 then
+      match rest with
+      | b1 :: b2 :: r =>
+        (if b0 = 224 then 160 ≤ b1 && b1 ≤ 191 else if b0 = 237 then 128 ≤ b1 && b1 ≤ 159 else isCont b1)
+          && isCont b2 && utf8Valid r
+      | _ => false
+    else if 240 ≤ b0 && b0 ≤ 244 then
+      match rest with
+      | b1 :: b2 :: b3 :: r =>
+        (if b0 = 240 then 144 ≤ b1 && b1 ≤ 191 else if b0 = 244 then 128 ≤ b1 && b1 ≤ 143 else isCont b1)
+          && isCont b2 && isCont b3 && utf8Valid r
+      | _ => false
+    else false
+
+/-! ### routed request / response messages (`swimos_messages::protocol`, raw bodies) -/
+
+inductive Operation | link | sync | unlink | command (body : Bytes)
+  deriving Repr, DecidableEq
+
+inductive Notification | linked | synced | unlinked (body : Option Bytes) | event (body : Bytes)
+  deriving Repr, DecidableEq
+
+structure ReqMsg where
+  origin : Bytes          -- 16 bytes
+  node : Bytes
+  lane : Bytes
+  env : Operation
+  deriving Repr, DecidableEq
+
+structure RespMsg where
+  origin : Bytes
+  node : Bytes
+  lane : Bytes
+  env : Notification
+  deriving Repr, DecidableEq
+
+notation "OPSH" => (2305843009213693952 : Nat)   -- 2^61 = 1 << OP_SHIFT
+
+def msgHeader (origin node lane : Bytes) (tag len : Nat) : Bytes :=
+  origin ++ (be 4 node.length ++ (be 4 lane.length ++ (be 8 (len + tag * OPSH) ++ (node ++ lane))))
+
+/-- `RawRequestMessageEncoder`. -/
+def encReqMsg (m : ReqMsg) : Bytes :=
+  match m.env with
+  | .link => msgHeader m.origin m.node m.lane msgLink 0
+  | .sync => msgHeader m.origin m.node m.lane msgSync 0
+  | .unlink => msgHeader m.origin m.node m.lane msgUnlink 0
+  | .command b => msgHeader m.origin m.node m.lane msgCommand b.length ++ b
+
+/-- `RawResponseMessageEncoder`. -/
+def encRespMsg (m : RespMsg) : Bytes :=
+  match m.env with
+  | .linked => msgHeader m.origin m.node m.lane msgLinked 0
+  | .synced => msgHeader m.origin m.node m.lane msgSynced 0
+  | .unlinked none => msgHeader m.origin m.node m.lane msgUnlinked 0
+  | .unlinked (some b) => msgHeader m.origin m.node m.lane msgUnlinked b.length ++ b
+  | .event b => msgHeader m.origin m.node m.lane msgEvent b.length ++ b
+
+/-- Common part of the two raw decoders once `required` bytes are there: header, node, lane. `k` gets
+(origin, node, lane, what follows the lane). -/
+def msgAfterHeader {α : Type} (buf : Bytes) (nodeLen laneLen : Nat)
+    (k : Bytes → Bytes → Bytes → Bytes → Bytes × Out α) : Bytes × Out α :=
+  if utf8Valid ((buf.drop 32).take nodeLen) then
+    (if utf8Valid (((buf.drop 32).drop nodeLen).take laneLen) then
+      k (buf.take 16) ((buf.drop 32).take nodeLen) (((buf.drop 32).drop nodeLen).take laneLen)
+        (((buf.drop 32).drop nodeLen).drop laneLen)
+     else ((((buf.drop 32).drop nodeLen).drop laneLen), .err))
+  else (((buf.drop 32).drop nodeLen), .err)
+
+/-- `RawRequestMessageDecoder::decode`: any tag other than LINK/SYNC/UNLINK is a command (F17), and the
+body-less kinds leave `body_len` bytes behind. -/
+def rawRequest : Parser ReqMsg := fun buf =>
+  if buf.length < headerInitLen then (buf, .more)
+  else if buf.length < headerInitLen + rd ((buf.drop 16).take 4) + rd ((buf.drop 20).take 4)
+      + rd ((buf.drop 24).take 8) % OPSH then
+    afterReserve (headerInitLen + rd ((buf.drop 16).take 4) + rd ((buf.drop 20).take 4)
+      + rd ((buf.drop 24).take 8) % OPSH) buf                                     -- `src.reserve(required)`
+  else msgAfterHeader buf (rd ((buf.drop 16).take 4)) (rd ((buf.drop 20).take 4)) fun origin node lane rest =>
+    if rd ((buf.drop 24).take 8) / OPSH = msgLink then (rest, .item ⟨origin, node, lane, .link⟩)
+    else if rd ((buf.drop 24).take 8) / OPSH = msgSync then (rest, .item ⟨origin, node, lane, .sync⟩)
+    else if rd ((buf.drop 24).take 8) / OPSH = msgUnlink then (rest, .item ⟨origin, node, lane, .unlink⟩)
+    else (rest.drop (rd ((buf.drop 24).take 8) % OPSH),
+          .item ⟨origin, node, lane, .command (rest.take (rd ((buf.drop 24).take 8) % OPSH))⟩)
+
+/-- `RawResponseMessageDecoder::decode`. -/
+def rawResponse : Parser RespMsg := fun buf =>
+  if buf.length < headerInitLen then (buf, .more)
+  else if buf.length < headerInitLen + rd ((buf.drop 16).take 4) + rd ((buf.drop 20).take 4)
+      + rd ((buf.drop 24).take 8) % OPSH then
+    afterReserve (headerInitLen + rd ((buf.drop 16).take 4) + rd ((buf.drop 20).take 4)
+      + rd ((buf.drop 24).take 8) % OPSH - buf.length) buf                        -- `reserve(required - remaining)`
+  else msgAfterHeader buf (rd ((buf.drop 16).take 4)) (rd ((buf.drop 20).take 4)) fun origin node lane rest =>
+    if rd ((buf.drop 24).take 8) / OPSH = msgLinked then (rest, .item ⟨origin, node, lane, .linked⟩)
+    else if rd ((buf.drop 24).take 8) / OPSH = msgSynced then (rest, .item ⟨origin, node, lane, .synced⟩)
+    else if rd ((buf.drop 24).take 8) / OPSH = msgUnlinked then
+      (if rd ((buf.drop 24).take 8) % OPSH = 0 then (rest, .item ⟨origin, node, lane, .unlinked none⟩)
+       else (rest.drop (rd ((buf.drop 24).take 8) % OPSH),
+             .item ⟨origin, node, lane, .unlinked (some (rest.take (rd ((buf.drop 24).take 8) % OPSH)))⟩))
+    else (rest.drop (rd ((buf.drop 24).take 8) % OPSH),
+          .item ⟨origin, node, lane, .event (rest.take (rd ((buf.drop 24).take 8) % OPSH))⟩)
+
+/-! ### ad hoc command messages (`command/mod.rs`, `CommandDecoder<S, WithLengthBytesCodec>`) -/
+
+structure Addr where
+  host : Option Bytes
+  node : Bytes
+  lane : Bytes
+  deriving Repr, DecidableEq
+
+inductive CmdMsg
+  | register (a : Addr) (id : Nat)
+  | addressed (a : Addr) (body : Bytes) (ow : Bool)
+  | registered (target : Nat) (body : Bytes) (ow : Bool)
+  deriving Repr, DecidableEq
+
+/-- `put_address`. -/
+def encAddr (a : Addr) : Bytes :=
+  match a.host with
+  | some h => be 8 h.length ++ (be 8 a.node.length ++ (be 8 a.lane.length ++ (h ++ (a.node ++ a.lane))))
+  | none => be 8 a.node.length ++ (be 8 a.lane.length ++ (a.node ++ a.lane))
+
+def hostFlag (a : Addr) : Nat := match a.host with | some _ => cmdHasHost | none => 0
+def owFlag (ow : Bool) : Nat := if ow then cmdOverwrite else 0
+
+/-- `CommandEncoder<WithLengthBytesCodec>`. -/
+def encCmd : CmdMsg → Bytes
+  | .register a id => (cmdRegistration + hostFlag a) :: (encAddr a ++ be 2 id)
+  | .addressed a body ow => (owFlag ow + hostFlag a) :: (encAddr a ++ encWlb body)
+  | .registered target body ow => (cmdRegistered + owFlag ow) :: (be 2 target ++ encWlb body)
+
+/-- `flags.contains(bit)` for a single-bit constant. -/
+def hasFlag (flags bit : Nat) : Bool := flags / bit % 2 = 1
+
+inductive CmdSt
+  | init
+  | readingRegistration (flags : Nat)
+  | readingRegisteredHeader (flags : Nat)
+  | readingAddressedHeader (flags : Nat)
+  | readingAddressedBody (a : Addr) (ow : Bool)
+  | readingRegisteredBody (id : Nat) (ow : Bool)
+  deriving Repr, DecidableEq
+
+/-- `try_extract_utf8` ×(host,) node, lane after the length words have been skipped; `k` continues with the
+address and what follows; an invalid string is an `Err` with everything up to and including it consumed
+(the state was already reset to `Init` by `mem::take`). -/
+def cmdStrings {α : Type} (hasHost : Bool) (hostLen nodeLen laneLen : Nat) (b : Bytes)
+    (k : Addr → Bytes → CmdSt × Bytes × Out α) : CmdSt × Bytes × Out α :=
+  if hasHost && !utf8Valid (b.take hostLen) then (.init, b.drop hostLen, .err)
+  else if !utf8Valid ((b.drop hostLen).take nodeLen) then (.init, (b.drop hostLen).drop nodeLen, .err)
+  else if !utf8Valid (((b.drop hostLen).drop nodeLen).take laneLen) then
+    (.init, ((b.drop hostLen).drop nodeLen).drop laneLen, .err)
+  else k ⟨if hasHost then some (b.take hostLen) else none, (b.drop hostLen).take nodeLen,
+          ((b.drop hostLen).drop nodeLen).take laneLen⟩ (((b.drop hostLen).drop nodeLen).drop laneLen)
+
+def cmdBody (st : CmdSt) (wrap : Bytes → CmdMsg) (buf : Bytes) : CmdSt × Bytes × Out CmdMsg :=
+  match (wlb buf).2 with
+  | .item x => (.init, (wlb buf).1, .item (wrap x))
+  | .more => (st, (wlb buf).1, .more)
+  | .err => (.init, (wlb buf).1, .err)
+  | .panic => (.init, (wlb buf).1, .panic)
+  | .abort => (.init, (wlb buf).1, .abort)
+
+/-- `ReadingAddressedHeader(flags)` arm (then the body in the same call). -/
+def cmdAddressedHeader (flags : Nat) (buf : Bytes) : CmdSt × Bytes × Out CmdMsg :=
+  if buf.length < cmdMinRequired then (.readingAddressedHeader flags, buf, .more)
+  else if hasFlag flags cmdHasHost && buf.length < cmdMaxRequired then (.readingAddressedHeader flags, buf, .more)
+  else
+    let hl := if hasFlag flags cmdHasHost then rd (buf.take 8) else 0
+    let b := if hasFlag flags cmdHasHost then buf.drop 8 else buf
+    let nl := rd (b.take 8)
+    let ll := rd ((b.drop 8).take 8)
+    if M64 ≤ hl + nl ∨ M64 ≤ hl + nl + ll then (.init, buf, .panic)            -- `host_len + node_len + lane_len`
+    else if (b.drop 16).length < hl + nl + ll then (.readingAddressedHeader flags, buf, .more)
+    else cmdStrings (hasFlag flags cmdHasHost) hl nl ll (b.drop 16) fun a rest =>
+      cmdBody (.readingAddressedBody a (hasFlag flags cmdOverwrite))
+        (fun body => .addressed a body (hasFlag flags cmdOverwrite)) rest
+
+/-- `ReadingRegistration(flags)` arm: when the header is not complete yet the state that is stored is
+`ReadingAddressedHeader(flags)` (as in the source), so a split registration is later read as an addressed
+message. -/
+def cmdRegistrationArm (flags : Nat) (buf : Bytes) : CmdSt × Bytes × Out CmdMsg :=
+  if buf.length < (if hasFlag flags cmdHasHost then cmdMaxRequired else cmdMinRequired) then
+    (.readingAddressedHeader flags, buf, .more)
+  else
+    let hl := if hasFlag flags cmdHasHost then rd (buf.take 8) else 0
+    let b := if hasFlag flags cmdHasHost then buf.drop 8 else buf
+    let nl := rd (b.take 8)
+    let ll := rd ((b.drop 8).take 8)
+    if M64 ≤ hl + nl ∨ M64 ≤ hl + nl + ll ∨ M64 ≤ hl + nl + ll + cmdIdLen then (.init, buf, .panic)
+    else if (b.drop 16).length < hl + nl + ll + cmdIdLen then (.readingAddressedHeader flags, buf, .more)
+    else cmdStrings (hasFlag flags cmdHasHost) hl nl ll (b.drop 16) fun a rest =>
+      (.init, rest.drop 2, .item (.register a (rd (rest.take 2))))
+
+def cmdRegisteredHeader (flags : Nat) (buf : Bytes) : CmdSt × Bytes × Out CmdMsg :=
+  if buf.length < cmdIdLen then (.readingRegisteredHeader flags, buf, .more)
+  else cmdBody (.readingRegisteredBody (rd (buf.take 2)) (hasFlag flags cmdOverwrite))
+    (fun body => .registered (rd (buf.take 2)) body (hasFlag flags cmdOverwrite)) (buf.drop 2)
+
+/-- `CommandDecoder<S, WithLengthBytesCodec>::decode`. -/
+def cmdStep : CmdSt → Bytes → CmdSt × Bytes × Out CmdMsg
+  | .init, buf =>
+    if buf.length < cmdFlagsLen then (.init, buf, .more)
+    else
+      let flags := hd buf % 16                                                   -- `from_bits_truncate`
+      if hasFlag flags cmdRegistration then cmdRegistrationArm flags (buf.drop 1)
+      else if hasFlag flags cmdRegistered then cmdRegisteredHeader flags (buf.drop 1)
+      else cmdAddressedHeader flags (buf.drop 1)
+  | .readingRegistration flags, buf => cmdRegistrationArm flags buf
+  | .readingRegisteredHeader flags, buf => cmdRegisteredHeader flags buf
+  | .readingAddressedHeader flags, buf => cmdAddressedHeader flags buf
+  | .readingAddressedBody a ow, buf => cmdBody (.readingAddressedBody a ow) (fun body => .addressed a body ow) buf
+  | .readingRegisteredBody id ow, buf =>
+    cmdBody (.readingRegisteredBody id ow) (fun body => .registered id body ow) buf
+
+def rawCommand : Dec CmdMsg where
+  σ := CmdSt
+  init := .init
+  step := cmdStep
+  view := fun s => match s with
+    | .init => []
+    | .readingRegistration f => [f]
+    | .readingRegisteredHeader f => [f]
+    | .readingAddressedHeader f => [f]
+    | .readingAddressedBody a ow => (owFlag ow + hostFlag a) :: encAddr a
+    | .readingRegisteredBody id ow => (cmdRegistered + owFlag ow) :: be 2 id
+
 end SwimVerif.Frames
